@@ -387,6 +387,17 @@ func (in *Interp) exec(fr *frame, instr ssa.Instruction) {
 		if !ok {
 			in.undecided("make with non-constant length at %s", in.c.P.instrPos(x))
 		}
+		// the capacity is evaluated too: make panics on a negative or an
+		// impossible size ("makeslice: cap out of range"), which a caller-
+		// supplied limit used as a capacity can provoke
+		if x.Cap != nil {
+			if cp, okc := in.concretise(in.get(fr, x.Cap)); okc && (cp < n || cp > 1<<40) {
+				panic(panicOutcome{kStr("makeslice: cap out of range"), x.Pos()})
+			}
+		}
+		if n < 0 || n > 1<<40 {
+			panic(panicOutcome{kStr("makeslice: len out of range"), x.Pos()})
+		}
 		elem := x.Type().Underlying().(*types.Slice).Elem()
 		s := Slice{NonNil: true}
 		for i := int64(0); i < n; i++ {
